@@ -14,7 +14,11 @@
  *   - capacities > NARY (the "any length" harnesses) are allocated exactly, fullsizeof(struct bint, placea, digit).
  */
 #include "vharness.h"
-#define V_STUB_BUG_UNREACHABLE
+#ifdef C11_BUG_DIAG      /* memory-safety harnesses with havocked loops: the code's own assert() is a visible refusal */
+# define V_STUB_BUG_DIAG
+#else                    /* value harnesses: reaching bug()/assert() is a failed obligation */
+# define V_STUB_BUG_UNREACHABLE
+#endif
 #include "stubs.h"
 #include "c_bigint.h"
 
@@ -49,11 +53,14 @@ MostAlignedType *stoAlloc(unsigned code, ULong size)
 		__CPROVER_assert(size <= sizeof(struct bint), "CHECK harness bound: allocation request fits a struct bint (capacity <= NARY digits)");
 		__CPROVER_assume(size <= sizeof(struct bint));
 # endif
-		b = (struct bint *) malloc(size <= sizeof(struct bint) ? sizeof(struct bint) : size);
+# ifdef NATIVE_REPLAY
+		if (size > sizeof(struct bint)) return (MostAlignedType *) malloc(size);
+# endif
+		b = (struct bint *) malloc(sizeof(struct bint));     /* a CONSTANT size: the object has the declared type */
 # ifndef NATIVE_REPLAY
 		__CPROVER_assume(b != 0);
 # endif
-		if (size <= sizeof(struct bint)) fill_sentinel(b);
+		fill_sentinel(b);
 		return (MostAlignedType *) b;
 	}
 #endif
